@@ -47,6 +47,15 @@ fn s(b: &[u8]) -> String {
 fn hex(b: &[u8]) -> String {
     b.iter().map(|c| format!("{c:02x}")).collect()
 }
+/// what `CertifiedKeyWrapper::try_from` keeps of a name: None = dropped (contains '/'), else its ASCII form
+fn real_norm(n: &[u8]) -> Option<Vec<u8>> {
+    if n.contains(&b'/') {
+        return None;
+    }
+    let st = String::from_utf8_lossy(n).to_string();
+    Some(idna::domain_to_ascii(&st).unwrap_or_else(|_| st.to_ascii_lowercase()).into_bytes())
+}
+
 fn show(b: &[u8]) -> String {
     String::from_utf8_lossy(b).replace(' ', "_")
 }
@@ -147,12 +156,32 @@ fn run_with(pool: &[PoolCert], case: &Case, out: &mut Out) {
     };
     let oracle_add = |store: &mut Vec<Stored>, fp: &[u8], names: &[Vec<u8>], exp: i128| {
         if !store.iter().any(|c| c.fp == fp) {
-            store.push(Stored { fp: fp.to_vec(), names: names.to_vec(), exp });
+            store.push(Stored { fp: fp.to_vec(), names: names.iter().filter_map(|n| real_norm(n)).collect(), exp });
         }
     };
+    // the idna rows of the case must be the real crate's answers, and every other name must be one on which
+    // idna::domain_to_ascii is plain ASCII lower-casing
+    let rows: Vec<(Vec<u8>, Vec<u8>)> = case.ops.iter().filter(|o| o.name == "idna").map(|o| (o.args[0].b().to_vec(), o.args[1].b().to_vec())).collect();
+    for op in &case.ops {
+        let names: &[Tok] = match op.name.as_str() {
+            "add" => &op.args[5..],
+            "rep" => &op.args[7..],
+            _ => &[],
+        };
+        for t in names {
+            let n = t.b();
+            if let Some(real) = real_norm(n) {
+                let model = rows.iter().find(|r| r.0 == n).map(|r| r.1.clone()).unwrap_or_else(|| n.to_ascii_lowercase());
+                if model != real {
+                    out.note("invalid-case: idna row missing or different from idna::domain_to_ascii");
+                }
+            }
+        }
+    }
     for op in &case.ops {
         let a = &op.args;
         match op.name.as_str() {
+            "idna" => out.obs(&[]),
             "add" => {
                 let (idx, ovn, ove, fp, exp) = (a[0].n(), a[1].n() == 1, a[2].n() == 1, a[3].b().to_vec(), a[4].n());
                 let names: Vec<Vec<u8>> = a[5..].iter().map(|t| t.b().to_vec()).collect();
